@@ -41,6 +41,11 @@ pub struct MacroImpl {
     pub body: String,
     pub literals: Vec<String>,
     pub mentions_self: bool,
+    /// what the impl computes, when it has one of the recognised forms ("" otherwise):
+    ///   "sha256-digest-eq"    eq:   Sha256::digest(<self.0>) == Sha256::digest(<other.0>)   (also `.eq(&..)`, either order)
+    ///   "sha256-digest-hash"  hash: Sha256::digest(<self.0>).hash(state)   (also `Hash::hash(&Sha256::digest(..), state)`)
+    /// <x.0> = x.0 | &x.0 | x.0.as_bytes() | x.0.as_str() ..; both digests may carry the same view (`.as_slice()`, `[..]`)
+    pub shape: String,
 }
 
 #[derive(Clone, Debug)]
@@ -300,6 +305,91 @@ fn literals_in(ts: TokenStream, out: &mut Vec<String>, mentions_self: &mut bool)
     }
 }
 
+/// `Sha256::digest(<x.0 as bytes>)` [with a view `.as_slice()` / `[..]`] → (x, view)
+fn digest_of(e: &syn::Expr) -> Option<(String, String)> {
+    use crate::mini::{strip_ref, text_view};
+    let mut e = strip_ref(e);
+    let mut view = String::new();
+    loop {
+        match e {
+            syn::Expr::MethodCall(m) if m.args.is_empty() && (m.method == "as_slice" || m.method == "as_ref") => {
+                view = "slice".into();
+                e = strip_ref(&m.receiver);
+            }
+            syn::Expr::Index(i) if canon(&i.index) == ".." => {
+                view = "slice".into();
+                e = strip_ref(&i.expr);
+            }
+            _ => break,
+        }
+    }
+    if let syn::Expr::Call(c) = e {
+        if canon(&c.func) == "Sha256::digest" && c.args.len() == 1 {
+            // x.0 | x.0.as_bytes() | x.0.as_str() ..
+            let mut a = text_view(&c.args[0]);
+            if let syn::Expr::MethodCall(m) = a {
+                if m.args.is_empty() && m.method == "as_bytes" {
+                    a = text_view(&m.receiver);
+                }
+            }
+            if let syn::Expr::Field(f) = a {
+                if let (Some(x), syn::Member::Unnamed(ix)) = (crate::mini::ident_of(&f.base), &f.member) {
+                    if ix.index == 0 {
+                        return Some((x, view));
+                    }
+                }
+            }
+        }
+    }
+    None
+}
+
+fn impl_shape(f: &syn::ImplItemFn) -> String {
+    let body = match crate::mini::expr_body(&f.block) {
+        Some(b) => b,
+        None => match f.block.stmts.as_slice() {
+            // `X;` as the only statement of a unit function
+            [syn::Stmt::Expr(e, Some(_))] => e.clone(),
+            _ => return String::new(),
+        },
+    };
+    let params = crate::mini::param_names(&f.sig);
+    let e = crate::mini::strip(&body);
+    if f.sig.ident == "eq" && params.len() == 1 {
+        let sides = match e {
+            syn::Expr::Binary(b) if matches!(b.op, syn::BinOp::Eq(_)) => Some(((*b.left).clone(), (*b.right).clone())),
+            syn::Expr::MethodCall(m) if m.method == "eq" && m.args.len() == 1 => Some(((*m.receiver).clone(), m.args[0].clone())),
+            _ => None,
+        };
+        if let Some((l, r)) = sides {
+            if let (Some((a, va)), Some((b, vb))) = (digest_of(&l), digest_of(&r)) {
+                let mut xs = vec![a, b];
+                xs.sort();
+                let mut want = vec!["self".to_string(), params[0].clone()];
+                want.sort();
+                if xs == want && va == vb {
+                    return "sha256-digest-eq".into();
+                }
+            }
+        }
+    }
+    if f.sig.ident == "hash" && params.len() == 1 {
+        let (d, st) = match e {
+            syn::Expr::MethodCall(m) if m.method == "hash" && m.args.len() == 1 => (Some((*m.receiver).clone()), Some(m.args[0].clone())),
+            syn::Expr::Call(c) if canon(&c.func).ends_with("Hash::hash") && c.args.len() == 2 => (Some(c.args[0].clone()), Some(c.args[1].clone())),
+            _ => (None, None),
+        };
+        if let (Some(d), Some(st)) = (d, st) {
+            if let Some((x, _)) = digest_of(&d) {
+                if x == "self" && crate::mini::ident_of(crate::mini::strip_ref(&st)).as_deref() == Some(params[0].as_str()) {
+                    return "sha256-digest-hash".into();
+                }
+            }
+        }
+    }
+    String::new()
+}
+
 fn macro_def(file: &str, m: &syn::ItemMacro, name: &str) -> R<MacroDef> {
     // rules: ( matcher ) => { body } ;
     let toks: Vec<TokenTree> = m.mac.tokens.clone().into_iter().collect();
@@ -382,6 +472,7 @@ fn macro_def(file: &str, m: &syn::ItemMacro, name: &str) -> R<MacroDef> {
                                 body: String::new(),
                                 literals: vec![],
                                 mentions_self: false,
+                                shape: String::new(),
                             });
                             continue;
                         }
@@ -394,7 +485,12 @@ fn macro_def(file: &str, m: &syn::ItemMacro, name: &str) -> R<MacroDef> {
                                 literals_in(quote::ToTokens::to_token_stream(&f.block), &mut lits, &mut ms);
                             }
                         }
-                        def.impls.push(MacroImpl { trait_: tn, cfg: cfg_of(&im.attrs), body, literals: lits, mentions_self: ms });
+                        let fns: Vec<&syn::ImplItemFn> = im.items.iter().filter_map(|ii| if let syn::ImplItem::Fn(f) = ii { Some(f) } else { None }).collect();
+                        let shape = match fns.as_slice() {
+                            [f] => impl_shape(f),
+                            _ => String::new(),
+                        };
+                        def.impls.push(MacroImpl { trait_: tn, cfg: cfg_of(&im.attrs), body, literals: lits, mentions_self: ms, shape });
                     }
                 }
             }
@@ -963,7 +1059,7 @@ pub fn to_lean(inv: &Inv) -> String {
         .collect();
     o.push_str(&format!("def newtypes : List NewType := {}\n\n", list_multiline(&nts, "  ")));
 
-    o.push_str("/-- a trait impl written inside one of the new-type macros (for the declared `$name`) -/\nstructure MacroImpl where\n  trait_ : String\n  cfg : Option String\n  body : String\n  literals : List String\n  mentionsSelf : Bool\nderiving DecidableEq, Repr\n\n");
+    o.push_str("/-- a trait impl written inside one of the new-type macros (for the declared `$name`) -/\nstructure MacroImpl where\n  trait_ : String\n  cfg : Option String\n  body : String\n  literals : List String\n  mentionsSelf : Bool\n  /-- \"sha256-digest-eq\" / \"sha256-digest-hash\" when the impl compares / hashes the SHA-256 digests of the wrapped values, empty otherwise -/\n  shape : String\nderiving DecidableEq, Repr\n\n");
     o.push_str("structure MacroDef where\n  name : String\n  structFields : List String\n  structDerives : List String\n  structCfgDerives : List (String × String)\n  inherentFns : List String\n  impls : List MacroImpl\nderiving DecidableEq, Repr\n\n");
     let mds: Vec<String> = inv
         .macros
@@ -974,12 +1070,13 @@ pub fn to_lean(inv: &Inv) -> String {
                 .iter()
                 .map(|i| {
                     format!(
-                        "{{ trait_ := {}, cfg := {}, body := {}, literals := {}, mentionsSelf := {} }}",
+                        "{{ trait_ := {}, cfg := {}, body := {}, literals := {}, mentionsSelf := {}, shape := {} }}",
                         s(&i.trait_),
                         opt_s(&i.cfg),
                         s(&i.body),
                         strs(&i.literals),
-                        b(i.mentions_self)
+                        b(i.mentions_self),
+                        s(&i.shape)
                     )
                 })
                 .collect();
